@@ -87,7 +87,7 @@ PROPERTIES = {
     },
     'C09': {
         'units': [ps.RulerCtor, ps.SimpsonWeights, ps.UpdateXProjection, ps.UpdateYProjection, ps.Integrate, ps.Normalize,
-                  ps.Average, ps.Variance, ps.Swap, ps.Assign, ps.PhaseSpaceCtor, ps.PhaseSpaceCtor8, ps.PhaseSpaceCtor12, ps.PhaseSpaceCopyCtor],
+                  ps.Average, ps.Variance, ps.Swap, ps.Assign, ps.PhaseSpaceCtor, ps.PhaseSpaceCtor8, ps.PhaseSpaceCtor12, ps.PhaseSpaceCopyCtor, ps.CreateFromProjections, ps.Gaus],
         'lemmas': [ps.lemmas_normalize],
         'native_sweep': {'harness': 'ps_replay', 'runs': [['moments', N_, nb_, sd_] for N_ in (8, 9, 16, 17, 33) for nb_ in (1, 2, 3, 5) for sd_ in (1, 2)]},
         'level': 'proof',
@@ -95,8 +95,8 @@ PROPERTIES = {
                  'integral, mean, variance and rms of bunch n are the stated sums over bunch n own projection and charge only; swap/assignment carry data and everything '
                  'derived from it; unbounded in grid size and bunch count, ideal arithmetic',
         'assumptions': [A_IDEAL, A_LIB, DROPS, 'finite sums are spec functions introduced by unfolding instances of their recursive definitions',
-                        'the Gaussian start distribution inside the main PhaseSpace constructor (gaus, setProjection, createFromProjections) is bound to frame-only contracts: which members it may write, not what it writes'],
-        'uncovered': ['discretisation error of Simpson sums for Gaussians (numerical analysis, not a code property)', 'the values of the Gaussian start distribution'],
+                        'inside the main PhaseSpace constructor the Gaussian branch (gaus, setProjection, createFromProjections) is bound to frame-only contracts; gaus and createFromProjections are verified as units of their own (sampled unit Gaussian; outer product rescaled to the nominal shares)'],
+        'uncovered': ['discretisation error of Simpson sums for Gaussians (numerical analysis, not a code property)', 'that the constructor passes the Gaussian rows to createFromProjections (setProjection is frame-only)'],
         'explanation': 'functional postconditions with ghost indices over every PhaseSpace method named by the property',
         'technique': TECH,
     },
@@ -182,7 +182,7 @@ PROPERTIES = {
     },
     'C17': {
         'units': SM_KICK + SM_FP + [sm.IdentityApply, sm.KickMapApplyTo, sm.FokkerPlanckApplyTo,
-                                    ps.RulerCtor, ps.SimpsonWeights, ps.UpdateXProjection, ps.UpdateYProjection, ps.Integrate, ps.Normalize, ps.Average, ps.Variance, ps.Swap, ps.MakePSFromTXTLoop, ps.PhaseSpaceCtor, ps.PhaseSpaceCtor8, ps.PhaseSpaceCtor12, ps.PhaseSpaceCopyCtor,
+                                    ps.RulerCtor, ps.SimpsonWeights, ps.UpdateXProjection, ps.UpdateYProjection, ps.Integrate, ps.Normalize, ps.Average, ps.Variance, ps.Swap, ps.MakePSFromTXTLoop, ps.PhaseSpaceCtor, ps.PhaseSpaceCtor8, ps.PhaseSpaceCtor12, ps.PhaseSpaceCopyCtor, ps.CreateFromProjections, ps.Gaus,
                                     ef.PadBunchProfiles, ef.WakePotential, ef.UpdateCSR, ef.ElectricFieldCtor, ef.ElectricFieldCtor11, ef.InitWakeLossFFT,
                                     mainspec.MainConfig, io.HDF5FileSources, io.HDF5AppendField, io.HDF5AppendTracks] + Z_UNITS,
         'leaves': [leaf.UpperPow2Leaf, leaf.FPApplyToLeaf, leaf.KickApplyToLeaf, leaf.PSxLeaf],
